@@ -75,6 +75,17 @@ class P(Prop):
                 c["inp"]["sts"] = [list(A if (sum(t >= x for x in cutpoints) % 2 == 0) else B) for t in range(n)]
                 c["split"] = cutpoints[1]
                 c["periodic_breaker_schedule"] = True
+            # a step at which one breaker opens while another closes (numeric 0/1 status, as the front ends pass it)
+            if kind == "electric" and len(c["plant"]["breakers"]) >= 2 and not c.get("periodic_breaker_schedule") and rng.random() < 0.4:
+                nb = len(c["plant"]["breakers"])
+                i_, j_ = rng.sample(range(nb), 2)
+                row = [rng.random() < 0.7 for _ in range(nb)]
+                row[i_], row[j_] = True, False
+                t0 = rng.randint(1, n - 1)
+                sw = list(row)
+                sw[i_], sw[j_] = False, True
+                c["inp"]["sts"] = [list(row) if t < t0 else list(sw) for t in range(n)]
+                c["swap_step"] = t0
             # statuses and sharing modes (also) through the per-switchboard [N x n] matrix setters
             if kind == "electric" and rng.random() < 0.3:
                 c["matrix_api"] = True
@@ -82,7 +93,7 @@ class P(Prop):
             rng.shuffle(perm)
             c["perm"] = perm
             c["scale"] = rng.choice([Fraction(1, 2), Fraction(3), Fraction(5, 4)])
-            c["numeric_breaker_status"] = rng.random() < 0.5
+            c["numeric_breaker_status"] = rng.random() < 0.5 or bool(c.get("swap_step"))
             out.append(c)
         return out
 
